@@ -260,11 +260,7 @@ def gen_gfa1(rng, max_lines, o):
             feats.append("self-link" if ox == oy else "hairpin")
         return l
 
-    n_other = budget
-    plan = []
-    if names and n_other > 0:
-        for _ in range(n_other):
-            plan.append(rng.choice("LLLLCCPP"))
+    plan = [rng.choice("LLLLCCPP") for _ in range(max(0, budget))] if names else []
     extra_lines = []
     for what in plan:
         used = len(links) + len(conts) + len(paths) + len(extra_lines)
@@ -840,14 +836,10 @@ def record_keys(line, version):
     """Canonical keys of one line: a list (a header line yields one key per tag, a tagless H none)."""
     rt, keys, tags, _ = tokenise(line, version)
     if rt == "H":
-        return [("H", (), frozenset([(n, t, _hk(v))])) for n, (t, v) in tags.items()]
+        return [("H", (), frozenset([(n, t, v)])) for n, (t, v) in tags.items()]
     if rt == "L":
         keys = list(_link_canon(keys))
-    return [(rt, tuple(keys), frozenset((n, t, _hk(v)) for n, (t, v) in tags.items()))]
-
-
-def _hk(v):
-    return v
+    return [(rt, tuple(keys), frozenset((n, t, v) for n, (t, v) in tags.items()))]
 
 
 def doc_keys(lines, version, merge_links=True):
@@ -1022,15 +1014,4 @@ def both_forms_with_different_tags(lines):
             if k[1] in seen and seen[k[1]] != k[2]:
                 return True
             seen.setdefault(k[1], k[2])
-    return False
-
-
-def has_duplicate_link(lines):
-    seen = set()
-    for l in lines:
-        if l.startswith("L\t"):
-            k = record_keys(l, "gfa1")[0][1]
-            if k in seen:
-                return True
-            seen.add(k)
     return False
